@@ -337,7 +337,7 @@ void rs_cf_splitting(const I n_nodes,
 
     // All nodes with no neighbors become F nodes
     for (I i = 0; i < n_nodes; i++) {
-        if (lambda[i] == 0 || (lambda[i] == 1 && Tj[Tp[i]] == i))
+        if (lambda[i] == 0 || (lambda[i] == 1 && Tp[i] < Tp[i+1] && Tj[Tp[i]] == i))
             splitting[i] = F_NODE;
     }
 
